@@ -400,6 +400,9 @@ SECTION_PROPS["extract_sorter"] = ["C01", "C18", "C19"]
 from extract_dag import dag_section  # noqa: E402  (M6 tie, DAG construction: DagGen.lean / Properties/DagTie.lean)
 EXTRA_SECTIONS.append(dag_section)
 SECTION_PROPS["extract_dag"] = ["C01", "C02", "C03", "C04", "C05", "C06", "C08", "C09", "C10", "C17"]
+from extract_provgen import provgen_section  # noqa: E402  (M7 tie: ProvGen.lean / Properties/ProvTie.lean)
+EXTRA_SECTIONS.append(provgen_section)
+SECTION_PROPS["extract_provgen"] = ["C18"]
 
 
 def main(write: bool = True) -> int:
